@@ -164,6 +164,9 @@ def core_MA():
         A("Q", ["B01"], [25]),
         A("P", ["A01", "B01"], {"$ma": [[45, 45], [True, False]]}),
         A("P", ["A01"], [25]),
+        # a fractional volume handed to distribute as a numpy scalar, then exactly that much taken out again
+        R("T", 0, "Q", ["C01", "C02"], {"$npf": 7.5}),
+        A("Q", ["C01", "C02"], [7.5, 7.5]),
     ]
 
 
@@ -366,7 +369,7 @@ class Harness(cm.BaseA):
             except Exception as e:
                 raised = e
             if raised is None:
-                V.append(("HARNESS-ERROR", "file pass did not raise"))
+                V.append(("C03/exception-swallowed-by-with-block", f"the same history inside a `with` block: the exception of the last operation did not leave the block"))
             if not os.path.exists(path):
                 V.append(("C03/file-not-written-on-abort", "leaving the with block through an exception wrote no file"))
             else:
